@@ -238,6 +238,12 @@ def main(tier):
                                 V.fail("wildcard-invalid", "a wildcard resolved to a host that is not in the scenario", {"config": cfg, "role": role})
                             if any(p not in wi["startHosts"] for p in picks):
                                 V.fail("random-invalid", "'random' resolved to a host that is not a start host of the scenario", {"config": cfg, "picks": picks})
+                    if not real["firewall"] and co._ip_to_hostname:
+                        # firewall switched off (or absent: the documented default): every host may connect to every host, itself included
+                        hosts = list(co._ip_to_hostname)
+                        closed = [(str(a), str(b)) for a in hosts for b in hosts if b not in co._firewall.get(a, ())]
+                        if closed:
+                            V.fail("setting:firewall-off-not-open", f"use_firewall is {cfg['env'].get('use_firewall', 'absent')} but {len(closed)} connections are not allowed, e.g. {closed[:3]}", {"config": cfg})
                     # (d) second episode: the start positions (wildcards included) still resolve to hosts that exist - also
                     # after the addresses were re-labelled by the reset
                     joined = [cid for cid in range(2) if ("127.0.0.1", 40000 + cid) in co._agent_states]
